@@ -259,7 +259,7 @@ type sim struct {
 	clusterKey uuid.UUID
 	members    []*member
 	byAddr     map[address.Address]*member
-	holder     map[node.Key]*member // first member admitted with a key
+	holder     map[node.Key]*member   // first member admitted with a key
 	grantOf    map[node.Key]*proposal // the approved proposal behind each admitted key
 	calls      []*call
 	gid2call   map[uint64]*call
@@ -372,7 +372,7 @@ type server struct {
 }
 
 func (sv *server) Use(...freighter.Middleware) {}
-func (sv *server) BindHandler(h handlerFn)    { sv.m.handler = h }
+func (sv *server) BindHandler(h handlerFn)     { sv.m.handler = h }
 
 type client struct {
 	freighter.Reporter
@@ -1241,10 +1241,13 @@ func (s *sim) shutdownWait() bool {
 // ---------------------------------------------------------------- quasi-determinism wrapper
 
 var (
-	memoMu       sync.Mutex
-	memo         = map[uint64]*kit.Violation{}
-	sawViolation bool
+	memoMu         sync.Mutex
+	memo           = map[uint64]*kit.Violation{}
+	sawViolation   bool
+	firstViolation time.Time
 )
+
+const shrinkBudget = 25 * time.Second
 
 // attempt runs a script; a violation is remembered per script so that rapid's re-runs of the
 // same script are consistent, and after the first violation (shrinking) or when replaying a
@@ -1262,13 +1265,20 @@ func attempt(once func(Script, *kit.Report) error) func(Script, *kit.Report) err
 		if os.Getenv("VERIF_REPLAY") != "" || !genStarted {
 			n = 300
 		} else if saw {
-			n = 10
+			// shrinking: rapid's own time limit is only checked between passes, so bound it here
+			if time.Since(firstViolation) > shrinkBudget {
+				return nil
+			}
+			n = 5
 		}
 		for i := 0; i < n; i++ {
 			err := once(sc, rep)
 			if err != nil {
 				if kv, ok := err.(*kit.Violation); ok {
 					memoMu.Lock()
+					if !sawViolation {
+						firstViolation = time.Now()
+					}
 					memo[h], sawViolation = kv, true
 					memoMu.Unlock()
 				}
